@@ -813,3 +813,182 @@ UUID (122 random bits); the expression is read from the source on every run.  A 
 theorem facts_item_id : Facts.probeItemIDExprs = ["uuid.NewString()"] := by decide
 
 end Swat4.C12
+
+/-! # Additions (review round 2): "a probe whose ready time is not earlier than its expiry is never queued"
+
+**The clause as written is false of the model and of the code.**  `never_queued` covers the only case the code tests:
+*both* bounds explicit (`!after.IsZero() && !before.IsZero() && (after.After(before) || after.Equal(before))`,
+`probes.go` `enqueue`).  When `after` is the zero time the ready time is `clock.Now()`, read *after* that test, and is never
+compared with `before`: `enqueue p none (some b)` with `clock ≥ b` **is queued** (`implicit_ready_past_expiry_is_queued`).
+This is the call shape of `refreshservers` (`AddBetween(ctx, prb, repositories.NC, deadline)`), whose deadline is
+`now + interval` and therefore in the future for every positive interval — a latent quirk, not a reachable fault of the
+shipped wiring.  What holds instead:
+
+* `never_queued_explicit`: the call issues no command **iff** both bounds are explicit and `after ≥ before`; in every
+  other case — in particular for an implicit ready time, whatever the clock — its single command queues the probe;
+* `implicit_ready_past_expiry_never_delivered`: such an entry (ready time *after* its expiry) is never handed to a
+  consumer: the first pop batch that takes it counts it as expired (from `not_early` + `not_late`, monotone clock);
+* the boundary `ready = expiry` is different: such an entry is queued **and can be delivered**, exactly at the instant
+  `clock = ready = expiry` (`isItemExpired` is `expires.Before(now)`, strict) — `ready_eq_expiry_delivered_witness`,
+  `ready_eq_expiry_only_at_instant`. -/
+namespace Swat4.C12
+open Swat4 Std
+
+/-- **the clause that holds** ("never queued", explicit bounds): an `enqueue` call finishes without issuing any storage
+command **iff** both `after` and `before` are explicit and `after ≥ before`.  In every other case the call stands at its
+(single) `HSET+ZADD` batch, which — `enqueue_one_batch`, `enqueue_uses_fresh` — queues the probe whatever the clock is:
+there is no second test. -/
+theorem never_queued_explicit (p : Probe) (after before : GoTime) :
+    (QOp.enqueue p after before).begin = .done .unit ↔ ∃ a b, after = some a ∧ before = some b ∧ a ≥ b := by
+  cases after with
+  | none => simp [QOp.begin]
+  | some a =>
+    cases before with
+    | none => simp [QOp.begin]
+    | some b =>
+      by_cases h : a ≥ b
+      · simp [QOp.begin, h]
+      · simp [QOp.begin, h]
+
+/-- … and otherwise it is at `.start`: the call is going to execute its batch -/
+theorem queued_otherwise (p : Probe) (after before : GoTime) (h : ¬ ∃ a b, after = some a ∧ before = some b ∧ a ≥ b) :
+    (QOp.enqueue p after before).begin = .start := by
+  cases after with
+  | none => rfl
+  | some a =>
+    cases before with
+    | none => rfl
+    | some b =>
+      have : ¬ a ≥ b := fun hab => h ⟨a, b, rfl, rfl, hab⟩
+      simp [QOp.begin, this]
+
+/-- **the counter-example, for every store, clock and expiry**: an `enqueue` with an *implicit* ready time and an expiry
+`b` — **no hypothesis relating `clock` and `b`**, so in particular for `clock ≥ b` — is not dropped: the call stands at
+`.start`, and its batch stores the payload with expiry `b` and the queue entry with score `clock` under the fresh id.
+The ready time `clock` is never compared with `b`. -/
+theorem implicit_ready_always_queued (st : RStore) (clock : Int) (fresh : Nat) (p : Probe) (b : Int) :
+    (QOp.enqueue p none (some b)).begin = .start ∧
+    (qstep st clock fresh (.enqueue p none (some b)) .start).1.pItems = st.pItems.insert fresh (p, some b) ∧
+    (qstep st clock fresh (.enqueue p none (some b)) .start).1.pQueue = st.pQueue.insert fresh clock :=
+  ⟨rfl, rfl, rfl⟩
+
+/-- clock 100; producer 0 enqueues `wp1` with implicit ready time (→ 100) and expiry 50 (already past); consumer 1 is a `PopMany 1` -/
+def pastExpiry : QSys :=
+  { clock := 100
+    clients := [{ op := .enqueue wp1 none (some 50), pc := .start },
+                { op := .popMany 1, pc := .start }] }
+
+theorem pastExpiry_init : pastExpiry.Init := by
+  refine ⟨RStore.consistent_empty, fun id => by simp [pastExpiry], ?_⟩
+  intro c hc
+  simp only [pastExpiry, List.mem_cons, List.not_mem_nil, or_false] at hc
+  rcases hc with rfl | rfl <;> exact ⟨rfl, fun h => by cases h⟩
+
+set_option maxRecDepth 100000 in
+/-- **`implicit_ready_past_expiry_is_queued`** (concrete witness; the clause "a probe whose ready time is not earlier than
+its expiry is never queued" is FALSE of the model): at clock 100 the producer's `enqueue wp1 none (some 50)` is accepted —
+one enqueue record with ready time 100 ≥ expiry 50, and the entry sits in `probes:queue` (score 100) and `probes:items`
+(expiry 50).  `probes.go` does the same: the drop test requires `!after.IsZero()`. -/
+theorem implicit_ready_past_expiry_is_queued :
+    pastExpiry.Init ∧
+    ((reach pastExpiry [.run 0]).enqs.map fun e => (e.id, e.probe, e.expires, e.ready, e.clk)) = [(0, wp1, some 50, 100, 100)] ∧
+    (reach pastExpiry [.run 0]).sys.store.pQueue[0]? = some 100 ∧
+    (reach pastExpiry [.run 0]).sys.store.pItems[0]? = some (wp1, some 50) ∧
+    0 ∈ (pastExpiry.run [.run 0]).store.pQueue := by
+  refine ⟨pastExpiry_init, by rfl, by decide, by decide, ?_⟩
+  unfold QSys.run
+  rw [← ghost_faithful]
+  exact (RStore.mem_iff_getElem?_some).2 ⟨100, by decide⟩
+
+set_option maxRecDepth 100000 in
+/-- … and what happens to it: the consumer's pop batch takes it out and counts it as expired; the batch is empty -/
+theorem implicit_ready_past_expiry_dropped_witness :
+    (reach pastExpiry [.run 0, .run 1]).pops = [⟨0, 1, wp1, some 50, some 100, 100, false⟩] ∧
+    ((reach pastExpiry [.run 0, .run 1]).sys.clients[1]?).map (·.pc) = some (.done (.probes [] 1)) := ⟨by rfl, by rfl⟩
+
+/-- **`implicit_ready_past_expiry_never_delivered`**: an accepted enqueue whose ready time is *after* its expiry
+(`x < e.ready`: only possible with an implicit ready time, by `never_queued_explicit`) is never delivered.  For every
+interleaving with a monotone clock: every pop record of that id is `returned = false` (counted as expired, dropped), and
+the id has been handed to no consumer.  Follows from `not_early` (`e.ready ≤ d.clk`) and `not_late`
+(`returned → d.clk ≤ x`). -/
+theorem implicit_ready_past_expiry_never_delivered (s0 : QSys) (h0 : s0.Init)
+    (harr : ∀ c ∈ s0.clients, c.started = true → c.arrival ≤ s0.clock) (es : List QSysEv) (hm : Monotone es)
+    (e : GEnq) (he : e ∈ (reach s0 es).enqs) (x : Int) (hx : e.expires = some x) (hlt : x < e.ready) :
+    (∀ d ∈ (reach s0 es).pops, d.id = e.id → d.returned = false) ∧ ∀ j, ¬ HandedTo (reach s0 es) e.id j := by
+  have hG := (GInv.init h0).run es
+  have hend : ((reach s0 es).enqs.map (·.id)).Nodup := hG.enqInc.imp (fun h => Nat.ne_of_lt h)
+  have key : ∀ d ∈ (reach s0 es).pops, d.id = e.id → d.returned = false := by
+    intro d hd hid
+    obtain ⟨e', he', h1, _, h3, h4⟩ := not_early s0 h0 harr es hm d hd
+    have : e' = e := eq_of_nodup_map hend he' he (h1.trans hid)
+    subst this
+    cases hr : d.returned with
+    | false => rfl
+    | true =>
+      exfalso
+      have hexp' : d.expires = some x := by
+        obtain ⟨e'', he'', g1, _, g3, _⟩ := hG.popSrc d hd
+        have : e'' = e' := eq_of_nodup_map hend he'' he' (g1.trans h1.symm)
+        subst this
+        rw [← g3, hx]
+      rcases (not_late s0 h0 es d hd).1 hr with hn | ⟨y, hy, hle⟩
+      · rw [hexp'] at hn; cases hn
+      · rw [hexp'] at hy; cases hy; omega
+  refine ⟨key, ?_⟩
+  rintro j ⟨_, _, _, _, _, _, _, _, _, d, hdm, hid, _⟩
+  obtain ⟨h1, _, h3⟩ := mem_batchRecs.1 hdm
+  rw [key d h1 hid] at h3
+  cases h3
+
+/-- **the boundary `ready = expiry`**: an accepted enqueue whose ready time *equals* its expiry can be delivered, but
+only by a pop batch executing at exactly that instant (`d.clk = x`): `isItemExpired` is strict -/
+theorem ready_eq_expiry_only_at_instant (s0 : QSys) (h0 : s0.Init)
+    (harr : ∀ c ∈ s0.clients, c.started = true → c.arrival ≤ s0.clock) (es : List QSysEv) (hm : Monotone es)
+    (e : GEnq) (he : e ∈ (reach s0 es).enqs) (x : Int) (hx : e.expires = some x) (heq : e.ready = x)
+    (d : GPop) (hd : d ∈ (reach s0 es).pops) (hid : d.id = e.id) (hr : d.returned = true) : d.clk = x := by
+  have hG := (GInv.init h0).run es
+  have hend : ((reach s0 es).enqs.map (·.id)).Nodup := hG.enqInc.imp (fun h => Nat.ne_of_lt h)
+  obtain ⟨e', he', h1, _, _, h4⟩ := not_early s0 h0 harr es hm d hd
+  have : e' = e := eq_of_nodup_map hend he' he (h1.trans hid)
+  subst this
+  obtain ⟨e'', he'', g1, _, g3, _⟩ := hG.popSrc d hd
+  have : e'' = e' := eq_of_nodup_map hend he'' he' (g1.trans h1.symm)
+  subst this
+  rcases (not_late s0 h0 es d hd).1 hr with hn | ⟨y, hy, hle⟩
+  · rw [← g3, hx] at hn; cases hn
+  · rw [← g3, hx] at hy; cases hy; omega
+
+/-- clock 100; producer 0 enqueues `wp1` with implicit ready time (→ 100) and expiry exactly 100; consumer 1 is a `PopMany 1` -/
+def atExpiry : QSys :=
+  { clock := 100
+    clients := [{ op := .enqueue wp1 none (some 100), pc := .start },
+                { op := .popMany 1, pc := .start }] }
+
+set_option maxRecDepth 100000 in
+/-- **`ready_eq_expiry_delivered_witness`**: with ready time = expiry = 100 the probe is queued *and delivered* by a
+consumer popping at clock 100 (`returned = true`, batch `[wp1]`) — so "ready ≥ expiry ⇒ never queued" fails at the
+boundary even for delivery; one tick later (clock 101) the same entry is dropped as expired -/
+theorem ready_eq_expiry_delivered_witness :
+    (reach atExpiry [.run 0, .run 1]).pops = [⟨0, 1, wp1, some 100, some 100, 100, true⟩] ∧
+    ((reach atExpiry [.run 0, .run 1]).sys.clients[1]?).map (·.pc) = some (.done (.probes [wp1] 0)) ∧
+    ((reach atExpiry [.run 0, .tick 1, .run 1]).sys.clients[1]?).map (·.pc) = some (.done (.probes [] 1)) :=
+  ⟨by rfl, by rfl, by rfl⟩
+
+set_option maxRecDepth 100000 in
+/-- non-vacuity of `implicit_ready_past_expiry_never_delivered`: on `pastExpiry` with the schedule `[.run 0, .run 1]` all
+hypotheses hold for the (only) enqueue record, and the conclusion says its pop record was not returned -/
+example : ∀ j, ¬ HandedTo (reach pastExpiry [.run 0, .run 1]) 0 j := by
+  have harr : ∀ c ∈ pastExpiry.clients, c.started = true → c.arrival ≤ pastExpiry.clock := by
+    intro c hc hs
+    simp only [pastExpiry, List.mem_cons, List.not_mem_nil, or_false] at hc
+    rcases hc with rfl | rfl <;> cases hs
+  have hm : Monotone [.run 0, .run 1] := by
+    intro e he
+    simp only [List.mem_cons, List.not_mem_nil, or_false] at he
+    rcases he with rfl | rfl <;> trivial
+  have henqs : (reach pastExpiry [.run 0, .run 1]).enqs = [⟨0, 0, wp1, some 50, 100, 100⟩] := by rfl
+  exact (implicit_ready_past_expiry_never_delivered pastExpiry pastExpiry_init harr [.run 0, .run 1] hm
+    ⟨0, 0, wp1, some 50, 100, 100⟩ (by rw [henqs]; exact List.mem_singleton.2 rfl) 50 rfl (by decide)).2
+
+end Swat4.C12
+
